@@ -263,6 +263,64 @@ def rule_passthrough(report, prog):
                  'role dispatch changed')
 
 
+def rule_driver_lr(report, prog, rule='C19-R4'):
+    """A driver whose chip cannot move 254 byte frames rewrites the length reduction (LR, bits 5..4 of PPi / PPt) of the ATR it
+    hands up.  Such a rewrite may only *lower* the value: for every PP octet the guard and the rewritten value are folded -- the new
+    LR index is never above the one the peer (or the application) announced, else frames longer than announced are sent."""
+    n = 0
+    for q, f in sorted(prog.functions.items()):
+        if not q.startswith('nfc.clf.'):
+            continue
+        for i in walk_no_nested(f.node):
+            if not isinstance(i, ast.If):
+                continue
+            for st in i.body:
+                if not (isinstance(st, ast.Assign) and isinstance(st.targets[0], ast.Subscript)):
+                    continue
+                b = match(st.value, '($X & 207) | $K')
+                if b is None or not isinstance(try_const(b['K']), int):
+                    continue
+                src = norm(b['X'])
+                n += 1
+                bad = []
+                for v in range(256):
+                    t = try_const(i.test, {src: v}, default=NotImplemented)
+                    if t is NotImplemented:
+                        bad.append('cannot fold `%s`' % norm(i.test))
+                        break
+                    new = ((v & 0xCF) | try_const(b['K'])) if t else v
+                    if (new >> 4) & 3 > (v >> 4) & 3:
+                        bad.append('PP %02Xh (LR index %d) becomes %02Xh (LR index %d)' % (v, (v >> 4) & 3, new, (new >> 4) & 3))
+                report.check(not bad, rule, key(q, 'the length reduction rewrite only lowers LR', st), f.loc(st),
+                             '%s raises the announced length reduction: %s' % (q, '; '.join(bad[:2])))
+    report.floor(rule + ' driver LR rewrites', n, 2)
+
+
+def rule_psl_radio(report, prog, rule='C19-R2'):
+    """After a PSL exchange both ends continue at the selected bit rate.  The RC-S380 target answers PSL_RES at the old rate, then
+    programs the radio: the value handed to tg_set_rf() is the value reported upwards as the new bit rate (same variable, not
+    re-bound in between), and it comes from the DSI of the PSL_REQ through the rate table."""
+    f = next((g for q, g in prog.functions.items() if q.startswith('nfc.clf.rcs380.Device.listen_dep') and q.endswith('send_psl_res>')), None)
+    if f is None:
+        raise AnalysisError('%s: rcs380 send_psl_res not found' % rule)
+    cfg = cfg_of(f)
+    sets = [c for c in walk_no_nested(f.node) if isinstance(c, ast.Call) and norm(c.func) == 'self.chipset.tg_set_rf' and len(c.args) == 1]
+    rets = [r for r in walk_no_nested(f.node) if isinstance(r, ast.Return) and isinstance(r.value, ast.Tuple) and r.value.elts]
+    okk = len(sets) == 1 and len(rets) == 1 and isinstance(sets[0].args[0], ast.Name) and norm(rets[0].value.elts[0]) == sets[0].args[0].id
+    if okk:
+        v = sets[0].args[0].id
+        binds = [cfg.node_of(a) for a in walk_no_nested(f.node) if isinstance(a, ast.Assign) and any(norm(t) == v for t in a.targets)]
+        table = [a for a in walk_no_nested(f.node) if isinstance(a, ast.Assign) and any(norm(t) == v for t in a.targets)
+                 and isinstance(a.value, ast.Subscript) and try_const(a.value.value) == ('106A', '212F', '424F') and norm(a.value.slice) == 'dsi']
+        sn = cfg_node_for(cfg, sets[0])
+        rn = cfg.node_of(rets[0])
+        okk = len(table) == 1 and cfg.dominates(cfg.node_of(table[0]), sn) and cfg.dominates(sn, rn) and \
+            not any(b_ is not cfg.node_of(table[0]) and b_ in cfg.reachable(cfg.node_of(table[0])) for b_ in binds)
+    report.check(okk, rule, key(f.qname, 'the radio is programmed to the bit rate that is reported as selected'), f.loc(),
+                 'send_psl_res: the value given to tg_set_rf() is not the rate from the DSI table that is returned as the new bit rate: the '
+                 'target keeps listening at the old rate while the initiator continues at the new one')
+
+
 def rule_budget(report, prog, res, rule='C19-R4'):
     le = LenEval(prog, res)
     cls = prog.cls(DEP + '.DEP_REQ_RES')
@@ -333,6 +391,8 @@ def run(report, prog, tier):
     rule_tables(report, prog)
     rule_passthrough(report, prog)
     rule_budget(report, prog, res)
+    rule_driver_lr(report, prog)
+    rule_psl_radio(report, prog)
     report.trusted += ['NFC-DEP: LR values (64,128,192,254) bound the transport data field CMD0 CMD1 PFB [DID] [NAD] payload',
                        'LLCP defaults: MIU 128, LTO 100 ms, LSC 0']
     report.assumptions += ['option domains brs 0..2, lri/lrt 0..3, rwt 0..14']
@@ -341,6 +401,11 @@ def run(report, prog, tier):
 D = 'nfc.dep'
 L = 'nfc.llcp.llc'
 MUTANTS = [
+    ('rcs380-psl-radio-keeps-old-rate', 'nfc.clf.rcs380', """            brty = ('106A', '212F', '424F')[dsi]
+            self.chipset.tg_set_rf(brty)
+            return brty, psl_req, psl_res""", """            self.chipset.tg_set_rf(brty)
+            return ('106A', '212F', '424F')[dsi], psl_req, psl_res""", 'C19-R2'),
+    ('pn531-raises-lr-of-atr-res', 'nfc.clf.pn531', "        if target.atr_res[16] & 0x30 == 0x30:", "        if target.atr_res[16] & 0x30:", 'C19-R4'),
     ('send-miu-from-own-pax', L, "self.cfg['send-miu'] = rcvd_pax.miu", "self.cfg['send-miu'] = send_pax.miu", 'C19-R1'),
     ('recv-lto-from-own', L, "self.cfg['recv-lto'] = rcvd_pax.lto", "self.cfg['recv-lto'] = send_pax.lto", 'C19-R1'),
     ('pax-decoded-from-own-gb', L, 'rcvd_pax = pdu.decode(b"\\x00\\x40" + bytes(gb[3:]))', 'rcvd_pax = pdu.decode(b"\\x00\\x40" + pdu.encode(send_pax)[2:])', 'C19-R1'),
